@@ -181,30 +181,40 @@ def sift (e : Env α) (s : St α) (head pshift : Nat) : M (St α) := do
   let (s, acc) ← siftLoop e 112 s head head pshift [head]
   cycle s acc.reverse
 
-/-- the `while (p[0] != 1 || p[1] != 0)` loop of `trinkle`; returns state, head, pshift, trusty, `ar` -/
+/-- one round of the `while (p[0] != 1 || p[1] != 0)` loop of `trinkle` up to the decision:
+    `some stepson` = go on with the stepson, `none` = `break` -/
+def trinkleIter (e : Env α) (s : St α) (ar0 head pshift : Nat) (trusty : Bool) : M (St α × Option Nat) := do
+  let l ← lpAt e.lp pshift
+  let stepson ← sub head l
+  let (c, s) ← cmpAt e s stepson ar0
+  if c ≤ 0 then .ok (s, none) else do
+    let (brk, s) ← (if !trusty ∧ pshift > 1 then do
+                       let rt ← sub head 1
+                       let l2 ← lpAt e.lp (pshift - 2)
+                       let lf ← sub rt l2
+                       let (c1, s) ← cmpAt e s rt stepson
+                       if c1 ≥ 0 then pure (true, s) else do
+                         let (c2, s) ← cmpAt e s lf stepson
+                         pure (decide (c2 ≥ 0), s)
+                     else pure (false, s) : M (Bool × St α))
+    if brk then .ok (s, none) else .ok (s, some stepson)
+
+/-- the loop of `trinkle`; `room` = free entries of `ar`; returns state, head, pshift, trusty, `ar` (newest first) -/
 def trinkleLoop (e : Env α) : (room : Nat) → St α → (ar0 head : Nat) → PV → (pshift : Nat) → (trusty : Bool) →
     (acc : List Nat) → M (St α × Nat × Nat × Bool × List Nat)
-  | room, s, ar0, head, p, pshift, trusty, acc =>
+  | 0, s, ar0, head, p, pshift, trusty, acc =>
     if p = PV.one then .ok (s, head, pshift, trusty, acc) else do
-      let l ← lpAt e.lp pshift
-      let stepson ← sub head l
-      let (c, s) ← cmpAt e s stepson ar0
-      if c ≤ 0 then .ok (s, head, pshift, trusty, acc) else do
-        let (brk, s) ← (if !trusty ∧ pshift > 1 then do
-                           let rt ← sub head 1
-                           let l2 ← lpAt e.lp (pshift - 2)
-                           let lf ← sub rt l2
-                           let (c1, s) ← cmpAt e s rt stepson
-                           if c1 ≥ 0 then pure (true, s) else do
-                             let (c2, s) ← cmpAt e s lf stepson
-                             pure (decide (c2 ≥ 0), s)
-                         else pure (false, s) : M (Bool × St α))
-        if brk then .ok (s, head, pshift, trusty, acc) else
-          match room with
-          | 0 => .error .arIdx
-          | room + 1 =>
-            let trail := pntz e.fx p
-            trinkleLoop e room s ar0 stepson (shr p trail) (pshift + trail) false (stepson :: acc)
+      let (s, step) ← trinkleIter e s ar0 head pshift trusty
+      match step with
+      | none => .ok (s, head, pshift, trusty, acc)
+      | some _ => .error .arIdx                              -- ar[i++] beyond the array
+  | room + 1, s, ar0, head, p, pshift, trusty, acc =>
+    if p = PV.one then .ok (s, head, pshift, trusty, acc) else do
+      let (s, step) ← trinkleIter e s ar0 head pshift trusty
+      match step with
+      | none => .ok (s, head, pshift, trusty, acc)
+      | some stepson =>
+        trinkleLoop e room s ar0 stepson (shr p (pntz e.fx p)) (pshift + pntz e.fx p) false (stepson :: acc)
 
 def trinkle (e : Env α) (s : St α) (head : Nat) (p : PV) (pshift : Nat) (trusty : Bool) : M (St α) := do
   let (s, head, pshift, trusty, acc) ← trinkleLoop e 112 s head head p pshift trusty [head]
